@@ -148,9 +148,19 @@ def parse_go_value(s):
 _FTOK = re.compile(r"^([-+]?)(\d*)(?:\.(\d*))?(?:[eE]([-+]?\d+))?$")
 
 
-def float_matches(tok, v):
-    """DDL float token vs reader value: the value printed with as many significant digits as the token shows
-    (%g), or in the token's fixed / exponent layout (%.kf / %.ke for outputs made with -m), equals the token."""
+def sig_digits(tok):
+    """Number of significant digits a %g-style token shows (None for inf/nan/non-numbers)."""
+    m = _FTOK.match(tok.strip())
+    if not m or (m.group(2) == "" and not m.group(3)):
+        return None
+    return max(1, len((m.group(2) + (m.group(3) or "")).lstrip("0")))
+
+
+def float_matches(tok, v, prec=None):
+    """DDL float token vs reader value.  h5dump prints every float of one run with one printf format (%g unless -m
+    was given), and %g drops trailing zeros; so the value printed with `prec` significant digits - the largest
+    number of digits any float token of the same DDL section shows, at least the digits of this token - must be
+    the token.  Tokens in fixed / exponent layout (outputs made with -m "%.7f") are matched in that layout."""
     t = tok.strip()
     tl = t.lower()
     if tl in ("nan", "-nan", "+nan"):
@@ -164,19 +174,60 @@ def float_matches(tok, v):
         return False
     if math.isnan(v) or math.isinf(v):
         return False
-    sign, ip, fp, ex = m.group(1), m.group(2), m.group(3), m.group(4)
-    digits = (ip + (fp or "")).lstrip("0")
-    p = max(1, len(digits))
-    cands = set()
-    cands.add("%.*g" % (p, v))
-    if fp is not None and ex is None:
-        cands.add("%.*f" % (len(fp), v))
-    if ex is not None:
-        cands.add("%.*e" % (len(fp or ""), v))
-    if t in cands:
+    fp, ex = m.group(3), m.group(4)
+    p = max(sig_digits(t), prec or 0)
+    if "%.*g" % (p, v) == t:
         return True
-    # "-0" printed for a negative value that rounds to zero is the same token in C and Python; nothing else to try
+    if fp is not None and ex is None and "%.*f" % (len(fp), v) == t and len(fp) >= 6:
+        return True
+    if ex is not None and "%.*e" % (len(fp or ""), v) == t:
+        return True
     return False
+
+
+def section_precision(doc):
+    """Largest number of significant digits over the non-integer numeric tokens of a DDL section."""
+    best = 0
+
+    def walk(v):
+        nonlocal best
+        if v[0] == "tok":
+            t = v[1]
+            if ("." in t or "e" in t.lower()) and "i" not in t and ":" not in t:
+                d = sig_digits(t)
+                if d and d <= 17:
+                    best = max(best, d)
+        elif v[0] in ("cmp", "arr", "vl"):
+            for x in v[1]:
+                walk(x)
+    for o in doc.objects.values():
+        for holder in [o] + list(o.attrs.values()):
+            for b in holder.blocks:
+                for v in b.values or []:
+                    walk(v)
+    return best
+
+
+_FLOAT_SELFTEST = [
+    ("0.1", 0.1, True), ("0.1", 0.1000004, True), ("0.1", 0.16, False), ("1", 1.0, True), ("1", 1.4, True), ("1", 1.6, False),
+    ("0.1406", 0.140625, True), ("0.140625", 0.140625, True), ("0.1407", 0.140625, False),
+    ("1e+10", 1e10, True), ("1.23457e+10", 12345678901.0, True), ("1.23457e+10", 12345578901.0, False),
+    ("-0", -0.0, True), ("-0", 0.0, False), ("0", 0.0, True), ("0", -0.0, False),
+    ("inf", math.inf, True), ("-inf", -math.inf, True), ("inf", 1e308, False), ("nan", math.nan, True), ("-nan", math.nan, True),
+    ("nan", 1.0, False), ("120000", 120000.0, True), ("120000", 120001.0, False), ("0.0000000", 1e-9, True),
+    ("-0.1234567", -0.12345673, True), ("-0.1234567", -0.1234577, False), ("3.40282e+38", 3.4028234663852886e38, True),
+    ("1e-05", 1e-5, True), ("9.99e-05", 9.99e-5, True), ("256", 256.0, True), ("256", 255.0, False), ("", 0.0, False), ("abc", 0.0, False),
+]
+
+
+def float_selftest():
+    bad = [(t, v, w) for t, v, w in _FLOAT_SELFTEST if float_matches(t, v) != w]
+    # with the section's precision known (6 = plain %g) the rule is as sharp as the print-out
+    bad += [(t, v, w, 6) for t, v, w in [("0.1", 0.11, False), ("0.1", 0.1000004, True), ("0.1", 0.100004, False), ("1", 1.4, False),
+                                          ("0.140625", 0.140625, True), ("1.23457e+10", 12345678901.0, True), ("2", 2.0, True)]
+            if float_matches(t, v, 6) != w]
+    if bad:
+        raise RuntimeError("float token rule self-test failed: %r" % bad)
 
 
 def int_of_float(x):
@@ -281,6 +332,7 @@ class Cmp:
         self.int_cases = {}                 # (order, signed, size, hex) -> [ddl_int, go_int or None, where]
         self.str_cases = {}                 # (pad, hex) -> [ddl canonical hex, go hex or None, where]
         self.samples = []
+        self.prec = None                    # float print precision of the DDL section being compared
 
     def d(self, file, path, kind, expected, got, ddlsrc):
         key = (file, path, kind)
@@ -370,6 +422,8 @@ def compare_file(C, fname, out, docs):
         if getattr(doc, "onion", None):
             C.diag["DDL sections of onion revisions skipped"] += 1
             continue
+        C.prec = section_precision(doc)
+        C.stats["ddl_sections_float_precision_%d" % C.prec] += 1
         # FILE_CONTENTS listing: membership and kinds of the whole file
         if doc.contents:
             for path, kind, tgt in doc.contents:
@@ -390,6 +444,13 @@ def compare_file(C, fname, out, docs):
             if kind in ("softlink", "extlink", "udlink"):
                 continue
             if getattr(o, "hardlink", False):
+                # the same object under a second name: the reader must show the object it shows at the target
+                tp = norm_path(o.target if str(o.target).startswith("/") else "/" + str(o.target))
+                tg = objs.get(tp)
+                if tg is not None and go_kind(tg) == go_kind(g) and go_kind(g) in ("dataset", "group") \
+                        and g.get("addr") and tg.get("addr") and g["addr"] != tg["addr"]:
+                    C.d(fname, path, "hardlink-target", "same object as %s" % tp, "object header %d vs %d" % (g["addr"], tg["addr"]), src)
+                C.stats["hardlinks_compared"] += 1
                 continue
             # ---- membership
             if kind == "group" and o.children is not None and go_kind(g) == "group":
@@ -732,9 +793,9 @@ def compare_values(C, fname, src, where, ty, els, raw, gv, what, total=None):
                     C.int_cases[key][1] = gi
         elif cls == "float":
             if gkind in ("f64", "f32"):
-                ok = float_matches(dv, gvv)
+                ok = float_matches(dv, gvv, C.prec)
             elif gkind == "int":
-                ok = float_matches(dv, float(gvv))
+                ok = float_matches(dv, float(gvv), C.prec)
             else:
                 ok = False
         elif cls == "string":
@@ -748,7 +809,7 @@ def compare_values(C, fname, src, where, ty, els, raw, gv, what, total=None):
                 ok = False
         elif cls == "compound":
             if gkind == "cmp":
-                ok, why = compound_eq(ty, dv, gvv)
+                ok, why = compound_eq(ty, dv, gvv, C.prec)
                 if not ok and first is None:
                     first = (idx, why, gvv)
             else:
@@ -770,7 +831,7 @@ def compare_values(C, fname, src, where, ty, els, raw, gv, what, total=None):
         C.d(fname, where, "value", "element %d: %r" % (first[0], first[1]), "%r (%d of %d compared elements differ)" % (first[2], nmis, ncmp), src)
 
 
-def compound_eq(ty, dv, g):
+def compound_eq(ty, dv, g, prec=None):
     """DDL compound element (list in member order) vs rendered ReadCompound element (dict hex(name) -> rendered)."""
     if not isinstance(g, dict):
         return False, "not a compound value"
@@ -784,7 +845,7 @@ def compound_eq(ty, dv, g):
         x = gm[n]
         c = t.get("class")
         if c == "compound":
-            ok, why = compound_eq(t, v, x)
+            ok, why = compound_eq(t, v, x, prec)
             if not ok:
                 return False, "%s.%s" % (n, why)
             continue
@@ -800,7 +861,7 @@ def compound_eq(ty, dv, g):
                 f = struct.unpack(">d", bytes.fromhex(x[4:]))[0]
             else:
                 return False, "member %r: DDL float %r reader %s" % (n, v, x)
-            if not float_matches(v, f):
+            if not float_matches(v, f, prec):
                 return False, "member %r: DDL %r reader %r" % (n, v, f)
         elif c == "string":
             if not x.startswith("s:"):
@@ -1073,6 +1134,7 @@ def collect(H, tier, rng, only=None):
 def run(ctx):
     H, rng = ctx.harness, ctx.rng
     t0 = time.time()
+    float_selftest()
     C, summ, dstats, hangs, panics, go_wall, outs = collect(H, ctx.tier, rng)
     known_idx, root_causes = load_known()
     viol, known_lines = [], []
